@@ -12,7 +12,7 @@ LEAN = True  # cases are distinct by construction; see engine.Acc
 RULE = (
     "triples D1 . X . '\\n' . D2 with D1 in 5 well-formed documents ending in a complete block, D2 in 6 well-formed documents "
     "starting with '@type{', X = every token sequence over the splitter alphabet up to the bound, plus every prefix and every "
-    "single-token edit of 9 valid blocks, size-scaled malformed middles, and middles padded so that the suffix's header lies across offsets 4096 .. 2^20 at every position; each text is parsed splitter-only and with the default stack and compared with the "
+    "single-token edit of 10 valid blocks, size-scaled malformed middles, and middles padded so that the suffix's header lies across offsets 4096 .. 2^20 at every position; each text is parsed splitter-only and with the default stack and compared with the "
     "parses of D1 and D2 alone. Non-trivial = X non-empty and the parse of the triple has a failed block or more blocks than "
     "D1 and D2 together (distinct by X)."
 )
@@ -57,6 +57,8 @@ X_BLOCKS = [
     '@misc{xk4, t = "a {b} c", u = {d "e" f}}',
     '@a{xk6, v = "q {r {s} t} u" # xs,\n w = {x {y "z" } }\n}',
     '@string{xs2 = "m {n} o" # {p}}',
+    # an entry that repeats a field key (what the scanner remembers about repeated keys when the block breaks off)
+    "@article{xk7, note = {n1}, note = {n2}, year = 2001}",
 ]
 ROUTES = ("split", "default")
 # size-scaled malformed middles (thresholds on nesting depth, line count, block count)
